@@ -351,6 +351,67 @@ fn router_survives_every_short_event_history() {
     report(name, "C03,C14", &format!("all histories of {} actions over {} router-level actions (connect/subscribe/publish/acks incl. unsolicited, Ready/Disconnect/DeviceData/Shadow for live and stale ids, unicode topic)", depth, n), cases, fail);
 }
 
+/// the same exploration started from warmed-up routers (clients connected, subscribed and caught up, a forward awaiting
+/// its ack, a shared group, a persistent session), so that short histories reach the states cold ones need 5+ steps for
+// @native props=C03,C14 tier=quick fn=Router::{events,handle_device_payload,handle_disconnection,consume}+Scheduler+DataLog::clean
+#[test]
+fn router_survives_every_short_history_after_a_warm_up() {
+    let name = "rumqttd::Router::events#no_history_after_a_warm_up_panics_or_wedges_the_router";
+    let depth = env_usize("VERIF_EVENT_DEPTH", 3).saturating_sub(1).max(2);
+    let warmups: [&[Act]; 7] = [
+        &[Act::ConnA(true), Act::ConnB, Act::SubA],
+        &[Act::ConnA(false), Act::ConnB, Act::SubA],
+        &[Act::ConnA(true), Act::ConnB, Act::SubShareA],
+        &[Act::ConnA(true), Act::ConnB, Act::SubA, Act::PubB(1)],
+        &[Act::ConnA(false), Act::ConnB, Act::SubA, Act::PubB(2)],
+        &[Act::ConnA(true), Act::ConnB, Act::SubA, Act::SubShareA, Act::PubB(0)],
+        &[Act::ConnA(false), Act::SubA, Act::DisconnectEvt(0), Act::ConnB],
+    ];
+    let mut cases = 0u64;
+    let mut fail: Option<String> = None;
+    let prev = std::panic::take_hook();
+    std::panic::set_hook(Box::new(|_| {}));
+    let n = ACTS.len();
+    let total = n.pow(depth as u32);
+    'outer: for warm in warmups.iter() {
+        for code in 0..total {
+            let mut seq = vec![];
+            let mut c = code;
+            for _ in 0..depth {
+                seq.push(ACTS[c % n]);
+                c /= n;
+            }
+            cases += 1;
+            let res = catch_unwind(AssertUnwindSafe(|| {
+                let mut r = new_router();
+                let mut a: Option<Client> = None;
+                let mut b: Option<Client> = None;
+                for act in warm.iter() {
+                    apply(&mut r, &mut a, &mut b, *act);
+                }
+                for (i, act) in seq.iter().enumerate() {
+                    let step = catch_unwind(AssertUnwindSafe(|| apply(&mut r, &mut a, &mut b, *act)));
+                    if step.is_err() {
+                        return Err(format!("routing core panicked at step {} ({:?})", i, act));
+                    }
+                }
+                match catch_unwind(AssertUnwindSafe(|| still_serves(&mut r))) {
+                    Ok(Ok(())) => Ok(()),
+                    Ok(Err(e)) => Err(format!("router no longer serves new clients: {}", e)),
+                    Err(_) => Err("routing core panicked while serving a fresh client afterwards".to_string()),
+                }
+            }));
+            let verdict = match res { Ok(v) => v, Err(_) => Err("panic during the warm-up".to_string()) };
+            if let Err(e) = verdict {
+                fail = Some(format!("input=[warm-up={:?} history={:?}] detail=[{}]", warm, seq, e));
+                break 'outer;
+            }
+        }
+    }
+    std::panic::set_hook(prev);
+    report(name, "C03,C14", &format!("7 warmed-up routers x all histories of {} actions over {} router-level actions", depth, n), cases, fail);
+}
+
 // ---------------------------------------------------------------------------------------------
 // C06: every request gets exactly one matching reply, in request order, to that client only
 // ---------------------------------------------------------------------------------------------
@@ -1702,7 +1763,7 @@ fn stale_disconnect_does_not_touch_a_later_connection() {
 
 /// C09 with QoS 2 subscriptions: the window is freed by PUBREC (the broker answers PUBREL, the client PUBCOMP) and
 /// forwarding of the backlog resumes on those acknowledgements without any other stimulus
-// @native props=C09,C06 tier=quick fn=Router::handle_device_payload(PubRec/PubComp arms)+consume+forward_device_data
+// @native props=C09,C06,C01 tier=quick fn=Router::handle_device_payload(PubRec/PubComp arms)+consume+forward_device_data
 #[test]
 fn qos2_window_resumes_on_pubrec_and_releases_are_completed() {
     let name = "rumqttd::Router#qos2_outbound_window_resumes_on_pubrec";
@@ -1778,7 +1839,7 @@ fn qos2_window_resumes_on_pubrec_and_releases_are_completed() {
             }
         }
     }
-    report(name, "C09,C06", "QoS 2 subscription, backlogs 3,100,101,230 x PUBREC bursts 1,9,100", cases, fail);
+    report(name, "C09,C06,C01", "QoS 2 subscription, backlogs 3,100,101,230 x PUBREC bursts 1,9,100", cases, fail);
 }
 
 /// C15: retained messages that fit into what is left of the delivery window are delivered (and flagged), also when the
@@ -1789,9 +1850,11 @@ fn retained_messages_fit_into_a_nearly_full_window() {
     let name = "rumqttd::Router#retained_delivered_when_they_fit_the_window";
     let mut cases = 0u64;
     let mut fail: Option<String> = None;
-    'outer: for unacked in [0usize, 98, 99] {
+    'outer: for unacked in [0usize, 98, 99, 100] {
         for retained in 1..=2usize {
-            if unacked + retained > 100 {
+            // (a window that is completely full is read again, retained messages included, once acknowledgements free it;
+            //  a window with room for only a part of the retained set truncates it: outside the claim, not explored)
+            if unacked < 100 && unacked + retained > 100 {
                 continue;
             }
             cases += 1;
@@ -1840,7 +1903,7 @@ fn retained_messages_fit_into_a_nearly_full_window() {
             }
         }
     }
-    report(name, "C15", "0/98/99 unacknowledged forwards x 1..2 retained messages that still fit the window of 100", cases, fail);
+    report(name, "C15", "0/98/99 unacknowledged forwards x 1..2 retained messages that still fit the window of 100, and a completely full window (100) that is freed afterwards", cases, fail);
 }
 
 /// C08: a saved session survives a refused reconnect (broker full) and exists for a client without subscriptions
